@@ -106,12 +106,20 @@ func (f *FileOutputHandler) Load(
 	tracker *worker.ProgressTracker,
 ) error {
 	absOutputPath := config.GetPathAbsoluteToWorkspaceRoot(filepath.Join(target.Label.Package, output.GetFile().GetPath()))
-	existingHash, err := hashing.HashFile(absOutputPath)
+	// Only a regular file at the output path can already be the cached output. Anything else
+	// (a symlink, a directory) is replaced: hashing or writing through a symlink would read
+	// and overwrite the file it points to instead of restoring the output.
+	existingInfo, statErr := os.Lstat(absOutputPath)
+	outputPathBlocked := statErr == nil && !existingInfo.Mode().IsRegular()
 
-	// If the local hash is the same as the cached one we don't need to
-	// load the file from the CAS
-	if err == nil && existingHash == output.GetFile().GetDigest().GetHash() {
-		return setExecutable(absOutputPath, output.GetFile().GetIsExecutable())
+	if !outputPathBlocked {
+		existingHash, err := hashing.HashFile(absOutputPath)
+
+		// If the local hash is the same as the cached one we don't need to
+		// load the file from the CAS
+		if err == nil && existingHash == output.GetFile().GetDigest().GetHash() {
+			return setExecutable(absOutputPath, output.GetFile().GetIsExecutable())
+		}
 	}
 
 	progress := tracker
@@ -131,6 +139,12 @@ func (f *FileOutputHandler) Load(
 	reader := io.Reader(contentReader)
 	if progress != nil {
 		reader = progress.WrapReader(contentReader)
+	}
+
+	if outputPathBlocked {
+		if err := os.RemoveAll(absOutputPath); err != nil {
+			return err
+		}
 	}
 
 	// The parent directories may have been removed since the output was cached
